@@ -11,14 +11,17 @@ RULE = ("seeded lint-clean circuit x one of limit_fanin/limit_fanout/insert_regi
         "a stage boundary with nodes, or >= 2 gates for acyclic_unroll)")
 PROBES = ["chained_transforms", "fanin>k:and", "fanin>k:nand", "fanin>k:or", "fanin>k:nor", "fanin>k:xor", "fanin>k:xnor",
           "regroup_rounds>=2", "fanout>k:input", "fanout>k:gate", "stage_boundary>=2", "acyclic_unroll:input_is_output"]
-ASSUMPTIONS = ["<= 6 startpoints, <= 14 gates", "no 'x' constants"]
+ASSUMPTIONS = ["<= 12 startpoints, <= 22 gates, gates up to 12 operands", "no 'x' constants"]
 
 
 def gen(rng, tier):
     op = rng.choices(("limit_fanin", "limit_fanout", "insert_registers", "acyclic_unroll"), weights=[4, 3, 2, 2])[0]
     k = rng.randint(2, 5)
     big = tier == "thorough" and rng.random() < 0.3
-    if op == "limit_fanin":
+    if op == "limit_fanin" and rng.random() < 0.08:
+        net = G.gen_net(rng, n_inputs=(9, 12), n_gates=(1, 3), types=G.swarm_types(rng), max_arity=12, constants=0.1,
+                        parity_bias=0.4)
+    elif op == "limit_fanin":
         net = G.gen_net(rng, n_inputs=(4, 8) if big else (2, 6), n_gates=(8, 16) if big else (1, 10), types=G.swarm_types(rng), max_arity=8 if big else 7,
                         constants=0.25, bbs=rng.choice((0, 0, 1)), parity_bias=rng.choice((0.0, 0.5)))
     elif op == "limit_fanout":
@@ -44,7 +47,7 @@ def run(case, ctx):
     if not ref.is_lint_clean(net) or ref.is_cyclic(net):
         raise Skip("precondition")
     free = ref.free_nodes(net)
-    if len(free) > 8:
+    if len(free) > 12:
         raise Skip("too many startpoints")
     c = ref.build(cg, net)
     sig = {"op": op}
